@@ -211,6 +211,12 @@ func open(out *verifutil.Out, rnd *verifutil.Rand, cfg Config, b *Blob, openView
 		out.Count("open-refused-" + openView.Kind)
 		return nil
 	}
+	if len(s.Files) == 0 { // an altered TOC without regular files: nothing can be read
+		out.Comment(fmt.Sprintf("open without files %s %s open=%s", cfg.Stack.Name, b.Comp, openView.Kind))
+		out.Count("open-empty-" + openView.Kind)
+		s.Close()
+		return nil
+	}
 	s.Views = views
 	s.LayerLevel = cfg.LayerLevel
 	s.Tag = fmt.Sprintf("%s[%s %s %s]", tag, cfg.Stack.Name, b.Comp, ckind)
